@@ -200,7 +200,7 @@ def gen_congruence(tier, rng):
     maxr = 5 if tier == "quick" else 6
     calls = []
     # (a) independent random factor sets
-    n_rand = 150 if tier == "quick" else 500
+    n_rand = 150 if tier == "quick" else 360
     for k in range(n_rand):
         r = 1 + k % maxr
         nm = rng.choice([1, 1, 2, 3])
@@ -221,7 +221,7 @@ def gen_congruence(tier, rng):
                 B = equivalent_copy(A, sigma, ds)
                 calls.append(dict(As=A, Bs=B, absv=absv, single=(nm == 1 and rng.random() < 0.5), sigma=list(sigma),
                                   generic=True, stream="equivalent"))
-    for _ in range(20 if tier == "quick" else 80):   # larger ranks, sampled permutations
+    for _ in range(20 if tier == "quick" else 50):   # larger ranks, sampled permutations
         r = maxr
         sigma = list(range(r)); rng.shuffle(sigma)
         nm = rng.choice([1, 2, 3]); hs = [rng.randint(2, 5) for _ in range(nm)]
